@@ -195,8 +195,9 @@ func c18Tree(dense uint64, seed uint64) *RefTree {
 }
 
 type recWitness struct {
-	in    feeder.Witness
-	calls []*feedCall
+	in     feeder.Witness
+	calls  []*feedCall
+	before func() // runs once, just before the first Update is forwarded (a competing submitter gets in first)
 }
 
 func (r *recWitness) GetLatestCheckpoint(ctx context.Context, id string) ([]byte, error) {
@@ -205,6 +206,11 @@ func (r *recWitness) GetLatestCheckpoint(ctx context.Context, id string) ([]byte
 func (r *recWitness) Update(ctx context.Context, id string, old uint64, cp []byte, proof [][]byte) ([]byte, error) {
 	c := &feedCall{Kind: "U", Old: old, CP: append([]byte{}, cp...), Proof: proof}
 	r.calls = append(r.calls, c)
+	if r.before != nil {
+		f := r.before
+		r.before = nil
+		f()
+	}
 	c.Out, c.Err = r.in.Update(ctx, id, old, cp, proof)
 	return c.Out, c.Err
 }
@@ -267,6 +273,18 @@ func c18Exec(t *testing.T, p *Plan, pairs []c18Pair, faults map[string]string) (
 			stub.size = pr.to
 			stub.mu.Unlock()
 			rw := &recWitness{in: omniwitness.VerifWitnessAdapter(realW)}
+			if mid := uint64(p.Cfg.Extra["compete_mid"]); mid > pr.from && mid < pr.to {
+				// another submitter moves the witness from 'from' to 'mid' between the feeder's read and its update
+				rw.before = func() {
+					mh := tree.Root(mid)
+					mtext := CheckpointText(ld.Origin, mid, mh[:])
+					mcp := MakeNote(mtext, w.Sign(ld.KeyIdx, &SignedCP{Origin: ld.Origin, Size: mid, Root: mh[:], Text: mtext}))
+					if _, err := realW.Update(context.Background(), ld.ID, pr.from, mcp, tree.ConsistencyProof(pr.from, mid)); err != nil {
+						infra = "competing submitter: " + err.Error()
+					}
+					st.Fired["competing_submitter_moved_witness"]++
+				}
+			}
 			sn.mu.Lock()
 			sn.Faults = map[string]string{}
 			base := len(sn.Log)
@@ -299,8 +317,9 @@ func c18Exec(t *testing.T, p *Plan, pairs []c18Pair, faults map[string]string) (
 			toRoot := tree.Root(pr.to)
 			for _, c := range rw.calls {
 				stt := parseStored(c.CP)
-				good := !stt.Bad && stt.Size == pr.to && string(stt.Root) == string(toRoot[:]) && c.Old == pr.from &&
-					RefVerifyConsistency(pr.from, pr.to, c.Proof, h[:], toRoot[:])
+				oldRoot := tree.Root(c.Old)
+				good := !stt.Bad && stt.Size == pr.to && string(stt.Root) == string(toRoot[:]) && c.Old >= pr.from && c.Old < pr.to &&
+					RefVerifyConsistency(c.Old, pr.to, c.Proof, oldRoot[:], toRoot[:])
 				if !good && len(faults) > 0 {
 					// Under network faults the property does not promise that only valid proofs are built (x/mod's
 					// TileHashReader does not authenticate every fetched tile); what must hold is that the witness
@@ -311,7 +330,7 @@ func c18Exec(t *testing.T, p *Plan, pairs []c18Pair, faults map[string]string) (
 					}
 				} else if !good {
 					viol = append(viol, Violation{Class: "proof_rejected", Sig: "proof_rejected", Detail: fmt.Sprintf("FeedLog(%d -> %d) submitted old=%d size=%d with %d proof hashes that the RFC 6962 reference verifier rejects (witness said %v)", pr.from, pr.to, c.Old, stt.Size, len(c.Proof), c.Err)})
-				} else if c.Err != nil {
+				} else if c.Err != nil && !(p.Cfg.Extra["compete_mid"] > 0 && strings.Contains(c.Err.Error(), "old size != current")) {
 					viol = append(viol, Violation{Class: "proof_rejected", Sig: "proof_rejected/by_witness", Detail: fmt.Sprintf("FeedLog(%d -> %d): a proof the reference verifier accepts was refused by the witness: %v", pr.from, pr.to, c.Err)})
 				}
 			}
@@ -323,6 +342,10 @@ func c18Exec(t *testing.T, p *Plan, pairs []c18Pair, faults map[string]string) (
 				}
 			} else if cur, _ := realW.GetCheckpoint(ld.ID); string(parseStored(cur).Root) != string(h[:]) && string(parseStored(cur).Root) != string(toRoot[:]) {
 				viol = append(viol, Violation{Class: "wrong_proof_submitted_under_fault", Sig: "witness_left_history", Detail: fmt.Sprintf("FeedLog(%d -> %d) under faults %v left the witness at {%s}, which is neither of the log's two checkpoints", pr.from, pr.to, faults, cpBrief(parseStored(cur)))})
+			} else if _, hitCP := faults["req#0"]; ferr != nil && !hitCP {
+				// every injected fault hit one single tile request; FeedOnce retries with fresh fetches, so the cycle must
+				// recover (a fault on the checkpoint fetch itself is not retried and may legitimately end the cycle)
+				viol = append(viol, Violation{Class: "proof_rejected", Sig: "proof_rejected/no_recovery_after_transient_fault", Detail: fmt.Sprintf("FeedLog(%d -> %d): one-off faults %v on tile requests, the server healthy afterwards, yet the cycle ended in: %v", pr.from, pr.to, faults, ferr)})
 			} else if ferr == nil {
 				if cur, _ := realW.GetCheckpoint(ld.ID); parseStored(cur).Size != pr.to {
 					viol = append(viol, Violation{Class: "wrong_proof_submitted_under_fault", Sig: "success_without_advance", Detail: fmt.Sprintf("FeedLog(%d -> %d) under faults %v returned nil but the witness is at %d", pr.from, pr.to, faults, parseStored(cur).Size)})
@@ -576,6 +599,18 @@ func init() {
 			case 1, 2:
 				p.Cfg.Notes["mode"] = "pairs"
 				p.Cfg.Notes["pairs"] = randomPairs(c18Batch)
+				if n%8 == 2 {
+					// one pair, with a competing submitter moving the witness to a size in between before the feeder's update lands
+					for {
+						p.Cfg.Notes["pairs"] = randomPairs(1)
+						var a, b uint64
+						fmt.Sscanf(p.Cfg.Notes["pairs"], "%d-%d", &a, &b)
+						if b > a+1 {
+							p.Cfg.Extra["compete_mid"] = int64(a + 1 + r.U64n(b-a-1))
+							break
+						}
+					}
+				}
 			default:
 				p.Cfg.Notes["mode"] = "faults"
 				p.Cfg.Notes["pairs"] = randomPairs(1)
